@@ -338,9 +338,12 @@ class Bench:
                     net.send(pb.DisconnectRequest())
             self.emit("sessionEnd " + ("0" if k[1] == "reset" else "1"))
         elif k[0] == "zc":
-            rec, matching = record(k[1])
+            # one batch of records, as zeroconf delivers them: "ptr_other+txt+a" = three records in one update; the batch
+            # matches when any record in it does
+            recs = [record(x) for x in k[1].split("+")]
+            matching = any(m for _, m in recs)
             for l in list(self.fzc.listeners):
-                l.async_update_records(None, loop.time(), [zeroconf.RecordUpdate(rec, None)])
+                l.async_update_records(None, loop.time(), [zeroconf.RecordUpdate(r, None) for r, _ in recs])
             self.emit(f"zc {int(matching)}")
         elif op == "timer":
             th = mgr._connect_timer
@@ -379,7 +382,7 @@ class Bench:
 
 
 OPS = ["start", "stop", "stopcb", "sock:ok", "sock:fail", "fin:ok", "fin:auth", "fin:reset", "end:reset", "end:dev",
-       "zc:ptr", "zc:a", "zc:ptr_other", "zc:a_other", "zc:txt", "timer", "wait:1", "wait:3", "pop", "settle", "cb_done"]
+       "zc:ptr", "zc:a", "zc:ptr_other", "zc:a_other", "zc:txt", "zc:ptr_other+ptr", "zc:txt+a_other+a", "zc:txt+ptr_other", "zc:a+ptr", "timer", "wait:1", "wait:3", "pop", "settle", "cb_done"]
 
 # histories for user callbacks that await something: the task sits in the callback, holding the lock, until cb_done
 CB = ["cb_done", "settle"]
@@ -418,6 +421,8 @@ SKELETONS = {
 }
 
 
+SKELETONS["zc-batches"] = ["start", "settle", "sock:fail", "settle", "zc:txt+ptr_other", "settle", "zc:ptr_other+ptr", "settle", "sock:fail",
+                           "settle", "zc:txt+a_other+a", "settle", "sock:ok", "settle", "fin:ok", "settle", "zc:a+ptr", "settle"]
 for _n in ("happy", "stop-early", "stop-start-live"):
     SKELETONS[_n + "/stopcb"] = ["stopcb" if o == "stop" else o for o in SKELETONS[_n]]
 SUSP_SKELETONS["s-stop-in-cb/stopcb"] = ["stopcb" if o == "stop" else o for o in SUSP_SKELETONS["s-stop-in-cb"]]
@@ -509,6 +514,10 @@ class Oracle:
                 pf = dict(x.split("=") for x in prev_snap.split())
                 if pf["st"] in ("HANDSHAKING", "READY") and (acts or snap != prev_snap):
                     self.problems.append(("c18:zc-while-connected", i, f"an mDNS record in state {pf['st']} had an effect: {acts}"))
+                # "immediately when an mDNS record for the device is seen while it is waiting": a batch with a matching record,
+                # while the manager listens and accepts, takes the listener down and goes for an attempt at once
+                if ev == "zc 1" and pf["zc"] == "1" and pf["acc"] == "1" and pf["stopped"] == "0" and "zc_remove" not in acts:
+                    self.problems.append(("c18:zc-ignored", i, f"a matching mDNS record while waiting (state {pf['st']}) was ignored: {acts}"))
                 if ev == "zc 0" and (acts or snap != prev_snap):
                     self.problems.append(("c18:zc-nonmatching", i, f"a non-matching mDNS record had an effect: {acts}"))
             prev_snap = snap
